@@ -1393,7 +1393,8 @@ class BinaryOperator(SymbolicExpression, ABC):
             entered = True
             self._is_false_ = is_false
             cache_match_count.values[self._node_.name] += 1
-            if is_false and self._is_duplicate_output_(output):
+            if is_false and (not self._yield_when_false_ or self._is_duplicate_output_(output)):
+                # (the cache may hold false outputs of an evaluation that asked for them, this one may not)
                 continue
             yield output
         if not entered:
@@ -1443,6 +1444,23 @@ class BinaryOperator(SymbolicExpression, ABC):
             return
         cache = self._cache_ if cache is None else cache
         cache.mark_covered(sources)
+        if not self._yield_when_false_:
+            cache.holds_true_outputs_only = True
+
+    def _cache_covers_(self, sources: Dict[int, HashedValue], cache: Optional[IndexedCache] = None) -> bool:
+        """
+        Whether every output for the given sources can be served from the cache. A node can be evaluated with and
+        without false outputs (a condition that is used alone and as the left side of a disjunction, a sub-query that is
+        evaluated on its own and nested in another query): what was cached while false outputs were not asked for is
+        not complete for an evaluation that asks for them.
+        """
+        if not is_caching_enabled():
+            return False
+        cache = self._cache_ if cache is None else cache
+        if self._yield_when_false_ and cache.holds_true_outputs_only:
+            cache.clear()
+            return False
+        return cache.check(sources)
 
     def update_cache(self, values: Dict[int, HashedValue], cache: Optional[IndexedCache] = None):
         if not is_caching_enabled():
@@ -1648,10 +1666,9 @@ class Comparator(BinaryOperator):
             yield sources
             return
 
-        if is_caching_enabled():
-            if self._cache_.check(sources):
-                yield from self.yield_final_output_from_cache(sources)
-                return
+        if self._cache_covers_(sources):
+            yield from self.yield_final_output_from_cache(sources)
+            return
 
         first_operand, second_operand = self.get_first_second_operands(sources)
         first_quantifier = self._quantifier_of_(first_operand, sources)
@@ -1770,7 +1787,7 @@ class AND(LogicalOperator):
                     yield left_value
                     continue
 
-                if is_caching_enabled() and self.right_cache.check(left_value):
+                if self._cache_covers_(left_value, self.right_cache):
                     yield from self.yield_final_output_from_cache(left_value, self.right_cache)
                     continue
 
@@ -1842,7 +1859,7 @@ class Union(OR):
         sources = sources or {}
         self._yield_when_false_ = yield_when_false
 
-        if is_caching_enabled() and self._cache_.check(sources):
+        if self._cache_covers_(sources):
             yield from self.yield_final_output_from_cache(sources)
             return
 
@@ -1915,8 +1932,7 @@ class ElseIf(OR):
                 any_left = True
                 left_value.update(sources)
                 if self.left._is_false_:
-                    if is_caching_enabled() and self._right_outputs_are_cacheable_ \
-                            and self.right_cache.check(left_value):
+                    if self._right_outputs_are_cacheable_ and self._cache_covers_(left_value, self.right_cache):
                         yield from self.yield_final_output_from_cache(left_value, self.right_cache)
                         continue
                     right_prev = self.right._eval_parent_
